@@ -526,6 +526,7 @@ def run(chk, repo, tier):
     run_l10_l11(chk, repo)
     run_l12(chk, repo)
     run_l13(chk, repo)
+    run_l14(chk, repo)
 
 
 def dict_in(lf, nid):
@@ -872,3 +873,33 @@ def run_l13(chk, repo):
                                       'writer log.csv.lock')
     if n < 2:
         raise AnalysisError(f'L13: only {n} _read_lock/_write_lock pairs found')
+
+
+def run_l14(chk, repo):
+    """both levels of path_lock are keyed by the NORMALISED path: two spellings of one file must meet in the same thread-level
+    lock object and the same file descriptor"""
+    from sa import reach
+    L14 = chk.rule('L14', 'path_lock: thread_level_lock and process_level_path_lock both receive the normalised path', floor=2)
+    m = repo.module('pharmpy.internals.fs.lock')
+    f = m.functions.get('path_lock')
+    if f is None:
+        raise AnalysisError('path_lock not found')
+    cfg = CFG(f.node)
+    NORM = ('normpath', 'abspath', 'realpath', 'resolve')
+    n = 0
+    for nd in cfg.nodes.values():
+        if nd.kind != 'with_enter' or nd.item is None:
+            continue
+        c = nd.item.context_expr
+        if isinstance(c, ast.Call) and dotted(c.func) in ('thread_level_lock', 'process_level_path_lock') and c.args:
+            n += 1
+            e = reach.expand_expr(cfg, nd.id, c.args[0])
+            ok = any(isinstance(x, ast.Call) and (dotted(x.func) or '').split('.')[-1] in NORM for x in ast.walk(e))
+            chk.instance(L14, f'path_lock: {dotted(c.func)}({unparse(e)[:40]}, ..) keyed by a normalised path: {ok}')
+            if not ok:
+                chk.violation(L14, m.rel, f.name, unparse(c)[:80],
+                              'the lock object is looked up under the spelling the caller used: dir/lock and dir/./lock get two '
+                              'thread-level locks for one file', line=nd.line,
+                              witness='two threads locking dir/lock and dir//lock exclusively are both granted')
+    if n < 2:
+        raise AnalysisError(f'L14: only {n} lock levels found in path_lock')
